@@ -160,6 +160,10 @@ func c09SeqMonitor(run *ev.Run, spec world.Spec) hMonitor {
 			run.Violation("C09 logout-answered-OK", "a logout request was answered OK", c01Replay{Spec: spec, History: full})
 			return
 		}
+		if o.RedisFailed && !removeFailed && isLogoutRedirect && o.SID != "" && h.W.HasAnything(o.SID) {
+			run.Violation("C09 logout-success-although-redis-command-failed store="+spec.Store, fmt.Sprintf("a Redis command of the logout failed (%v), the session is still stored, yet the answer is the successful logout redirect", o.RedisCmds), c01Replay{Spec: spec, History: full})
+			return
+		}
 		if removeFailed {
 			if isLogoutRedirect {
 				run.Violation("C09 logout-success-although-remove-failed store="+spec.Store, "RemoveSession failed but the answer is the successful logout redirect", c01Replay{Spec: spec, History: full})
@@ -235,7 +239,7 @@ func c09Run(run *ev.Run) {
 		{Store: "memory", Forward: true, Logout: true, Discovery: true},
 		{Store: "memory", Forward: true, Logout: true, Discovery: true, NoLogoutRedirect: true},
 	} {
-		o := hOpts{Spec: spec, Logout: true, Faults: true, MaxDev: 1, FaultModes: []string{"before", "after"}, MaxSessions: 2, Advance: true}
+		o := hOpts{Spec: spec, Logout: true, Faults: true, RedisFaults: spec.Store == "redis", MaxDev: 1, FaultModes: []string{"before", "after"}, MaxSessions: 2, Advance: true}
 		m := o.model(c09SeqMonitor(run, spec))
 		m.MaxDepth = 4
 		if run.Tier == "thorough" {
